@@ -479,9 +479,11 @@ func (self Value) getByPath(pathes ...Path) (Value, []int) {
 		address[i] = start
 
 		if err != nil {
-			// the last one not foud, return start pointer for subsequently inserting operation on `SetByPath()`
+			// the last one not foud, address[i] is the position for subsequently inserting operation on `SetByPath()`.
+			// The value itself must not point there: the position is often the end of the buffer, and a pointer
+			// behind an allocation makes the garbage collector mark (or die on) the neighbouring object
 			if i == len(pathes)-1 && err == errNotFound {
-				return Value{errNotFoundLast(unsafe.Pointer(uintptr(self.v)+uintptr(start)), tt), nil, false}, address
+				return Value{errNotFoundLast(nil, tt), nil, false}, address
 			}
 			return errValueOf("invalid value node.", err), address
 		}
@@ -584,6 +586,8 @@ func (self *Value) SetByPath(sub Node, path ...Path) (exist bool, err error) {
 		if err := v.setNotFound(targetPath, &sub, desc); err != nil {
 			return false, err
 		}
+		// insert at the position getByPath stopped at
+		v.v = rt.AddPtr(self.v, uintptr(address[l-1]))
 	} else {
 		exist = true
 	}
